@@ -619,11 +619,31 @@ def flags(chk, rid):
            'a path returns flag values without validating the user flags',
            fi=v.fi, node=r)
   u = FnView(repo, 'universe.LogicaProgram.UseFlagsAsParameters')
-  loops = [n for n in u.cfg.stmt_nodes() if isinstance(u.cfg.stmt[n], ast.While)]
+  # the loop that repeats the substitution until nothing changes: a `while`
+  # with a counter and a raising bound, or a `for _ in range(N)` (bounded by
+  # construction)
+  loops = [n for n in u.cfg.stmt_nodes() if isinstance(u.cfg.stmt[n], (ast.While, ast.For)) and
+           any(isinstance(c, ast.Call) and call_tail(c) == 'replace' for c in ast.walk(u.cfg.stmt[n]))
+           and not any(isinstance(p_, (ast.While, ast.For)) and p_ is not u.cfg.stmt[n] and
+                       any(q_ is u.cfg.stmt[n] for q_ in ast.walk(p_))
+                       for p_ in walk_local(u.fi.node))]
   if not loops:
     raise AnalysisError('UseFlagsAsParameters: fixpoint loop not found')
   for w in loops:
     wst = u.cfg.stmt[w]
+    if isinstance(wst, ast.For):
+      it_ = wst.iter
+      by_range = isinstance(it_, ast.Call) and call_tail(it_) == 'range' and it_.args
+      if by_range:
+        try:
+          by_range = isinstance(tables.const_value(it_.args[-1] if len(it_.args) < 3 else it_.args[1]), int)
+        except AnalysisError:
+          by_range = False
+      chk.ob(rid, bool(by_range), None,
+             'substitution loop runs a constant number of rounds at most',
+             'flags that refer to each other make compilation loop forever',
+             fi=u.fi, node=wst)
+      continue
     incs = [x for x in wst.body if isinstance(x, ast.AugAssign) and
             isinstance(x.op, ast.Add) and isinstance(x.value, ast.Constant)]
     bound = False
